@@ -6,6 +6,7 @@ import ZV.Model.Machine
 import ZV.Model.ZCore
 import ZV.Model.ZCoreSpec
 import ZV.Props.C01Statements
+import ZV.Proofs.Safety
 
 namespace ZV.Props.C01
 open ZV.Machine
@@ -13,5 +14,16 @@ open ZV.Machine
 /-- The machine is a function: one state has one successor (determinism of `step`). -/
 theorem step_deterministic (c : Comp) (st : State) (r₁ r₂ : StepResult)
     (h₁ : step c st = r₁) (h₂ : step c st = r₂) : r₁ = r₂ := h₁ ▸ h₂ ▸ rfl
+
+/-- The checker is sound for the declared rules. -/
+theorem check_sound : Statement.check_sound := ZV.ZCore.check_sound_c01_pf
+
+/-- **Type safety**: a program the checker accepts never reaches an undefined state of the
+interpreter model, for every standard input, argument vector and finite prefix of its execution. -/
+theorem accepted_never_stuck : Statement.accepted_never_stuck := ZV.ZCore.accepted_never_stuck_pf
+
+/-- A finished run of an accepted `OS` program ended by exiting, in the arithmetic trap or in a
+host failure. -/
+theorem os_program_exits : Statement.os_program_exits := ZV.ZCore.os_program_exits_pf
 
 end ZV.Props.C01
